@@ -56,6 +56,14 @@ CHECKS = {
                      "exact rational nearest-float32, and the formatter on the same bodies",
                 note="trusted: exact rational reference for literals, instruction listing of the driver; formatter class exercised directly",
                 technique="bounded exhaustive enumeration of values/texts with round-trip and reference-value oracles"),
+    "C07": dict(level="model_checking", ref="3/C07",
+                text="all pairs and triples over a pool of ~50 values (one per comparison shortcut): symmetry, reflexivity, transitivity, == vs "
+                     "isEqualTo, in/find agreement, equal => equal value::hash(); and stateless exploration of all HashMap operation sequences "
+                     "(depth 3/4, 18 operations incl. mutation of an array used as key and operations on a copy) against a reference dictionary, "
+                     "observed after every operation",
+                note="states = reference map contents reached; small maps (<=5 entries) only, so hash/bucket defects that need many entries are "
+                     "covered through the hash relation, not through lookups",
+                technique="exhaustive relation checking over a finite value pool plus explicit enumeration of operation histories against a reference map"),
 }
 
 PENDING_REASON = "check not built yet in this round (planned, see DESIGN.md section 3)"
